@@ -86,6 +86,7 @@ func runMoney(w *mc.Worker, id string) {
 			judgeSeqCase(w, c, nil, bal, owns, nontriv, id == "C02")
 		})
 	}
+	stage("pow2-w1", "source+destination trees of joint weight <= 1; balances and amounts in {0,1,2^63-1,2^63,2^64-1,2^64,2^64+1,2^65}", 1, 1, 1, pow2Dom(), pow2Dom())
 	if w.Tier == "quick" {
 		stage("send-w2", "source+destination trees of joint weight <= 2, depth <= 1; balances {0,1,3,-2}^2; amounts {0,1,2,4,7}", 2, 1, 1, balQ, amtQ)
 		seq("seq-L2", "all statement sequences of length <= 2 over the 28-statement alphabet (<= 1 deviation statement) x sheets a in {0,1,3,6,-2}, b in {0,2,-2}, x in {0,2}", 2, 1, sheetsQ)
